@@ -25,7 +25,8 @@ for p in props:
         "engine": "harness",
         "level_claimed": {"category": "exploration", "text": m.LEVEL_TEXT, "design_ref": f"DESIGN.md section 5, {pid}"},
         "level_note": m.LEVEL_NOTE,
-        "technique": m.TECHNIQUE,
+        "technique": m.TECHNIQUE + ("; thorough tier adds coverage-guided fuzzing (atheris/libFuzzer drives the same Hypothesis strategies "
+                                    "through fuzz_one_input with typelib instrumented, same oracle inside the target)" if hasattr(m, "cg_plan") else ""),
     })
 man = {
     "version": 1,
@@ -38,7 +39,7 @@ man = {
         "add_only": True,
     },
     "engines": [{"name": "harness", "path": "/verif/harness", "serves_properties": served,
-                 "kind_free_text": "Hypothesis 6.168 strategies / rule-based state machines + itertools enumeration, 16 forked workers, collect-bucket-report runner (harness/run.py)"}],
+                 "kind_free_text": "Hypothesis 6.168 strategies / rule-based state machines + itertools enumeration, 16 forked workers, collect-bucket-report runner (harness/run.py); thorough tier: atheris 3.1 coverage-guided shards over the same strategies (harness/cg.py)"}],
     "checks": checks,
     "not_applicable": na,
     "notes": "All checks run under /venv/bin/python against /repo's working tree. VERIF_SEED seeds every Hypothesis run; PYTHONHASHSEED=0 is forced. Genuine defects repaired in /repo are 'fix:' commits listed in known_findings.json (status fixed); unrepaired ones are status known and print KNOWN-FINDING lines.",
